@@ -31,24 +31,24 @@ CHECKS = {
    text="Data-section, summary, per-chunk and per-attachment CRC-32 of every generated image are recomputed from the bytes over exactly the ranges the spec defines and compared with the stored fields; with checksums disabled the three file/chunk fields must be 0 while attachment CRCs stay correct. Samples the space.",
    note="Trusted: refmcap, hash/crc32. A true CRC of 0 is indistinguishable from 'not available'."),
  "C07": dict(level="fault_enumeration", design="DESIGN.md §4 C07",
-   technique="deterministic simulation with stored-byte fault injection: exhaustive single-bit flips (plus seeded overwrites/swaps) over every chunk payload and attachment of each generated file; oracle prefix-then-report",
-   text="For each generated checksummed file every single-bit flip of every stored chunk-payload byte and every attachment body byte is applied to the stored image and read back with validation (error mode and invalid-chunk-token mode): records before the report must be original, the report must come before any record of the damaged chunk, an unreported flip must leave the stream identical (never accepted for uncompressed chunks), attachments must not surface altered content with agreeing CRCs. The fault dimension is exhaustive per file; files are sampled.",
+   technique="deterministic simulation with stored-byte fault injection: exhaustive single-bit flips (plus seeded overwrites/swaps and well-formed replacement streams carrying a forged record) over every chunk payload and attachment of each generated file; oracle prefix-then-report",
+   text="For each generated checksummed file every single-bit flip of every stored chunk-payload byte and every attachment body byte is applied to the stored image and read back with validation (error mode, invalid-chunk-token mode and, for a quarter of the faults, the latter with a decompressed-size limit one byte below the damaged chunk; the options value is zeroed after NewLexer); compressed payloads are also replaced by well-formed zstd/lz4 streams of the same stored length that carry one more record behind the declared size: records before the report must be original, the report must come before any record of the damaged chunk, an unreported flip must leave the stream identical (never accepted for uncompressed chunks), attachments must not surface altered content with agreeing CRCs. The fault dimension is exhaustive per file; files are sampled.",
    note="Trusted: harness oracle, refmcap FileMap for fault placement. errors.Is(err, io.EOF) is treated as end-of-file because the library's own Range helper does."),
  "C08": dict(level="exploration", design="DESIGN.md §4 C08",
    technique="deterministic simulation: seeded search biased to time corner cases; writer statistics, statistics record (refmcap) and Reader.Info compared with model aggregates",
    text="Writer.Statistics after Close, the statistics record as decoded by refmcap and Reader.Info are compared with the model's true aggregates (counts, per-channel counts, earliest/latest log time) on workloads biased to log time 0, descending times across chunks, message-less chunks, channels without messages and re-written records; Info's listings are compared with refmcap's decode of the same summary. Samples the space.",
    note="Trusted: reference model, refmcap. Chunk count ground truth = chunk records decoded by refmcap."),
  "C09": dict(level="fault_enumeration", design="DESIGN.md §4 C09",
-   technique="deterministic simulation with crash injection: every truncation point 0..len-1 of each generated file (= every crash point of an append-only sink), three sequential reader modes; oracle prefix + completeness",
-   text="Each generated file is cut at EVERY byte and read through the lexer (CRC validation off and on) and the non-indexed iterator under a drawn delivery policy: the records must be an element-wise prefix of the uncut read (a cut attachment may surface with fewer data bytes), the read must end with EOF or an error without panic or hang, and every message of every completely written chunk/record must be returned. Crash points are exhaustive per file; files are sampled.",
+   technique="deterministic simulation with crash injection: every truncation point 0..len-1 of each generated file (= every crash point of an append-only sink), four sequential reader modes, consumer polling twice more after an error; oracle prefix + completeness, undamaged read anchored to the content model",
+   text="Each generated file is cut at EVERY byte and read through the lexer (CRC validation off and on) the lexer on a seekable source without attachment callback and the non-indexed iterator (fresh / reused Message and buffer, varying from cut to cut) under a drawn delivery policy; after an error the consumer calls twice more and whatever that returns counts as returned: the records must be an element-wise prefix of the uncut read (which is itself compared with the content model) (a cut attachment may surface with fewer data bytes), the read must end with EOF or an error without panic or hang, and every message of every completely written chunk/record must be returned. Crash points are exhaustive per file; files are sampled.",
    note="Trusted: harness oracle, refmcap record boundaries; append-only output is checked by C05."),
  "C14": dict(level="fault_enumeration", design="DESIGN.md §4 C14",
    technique="deterministic simulation with sink fault injection: every destination write call k of each workload failed as error/short write x transient/permanent; every attachment source failing at every byte",
    text="For each generated workload the fault-free run gives N destination writes; every k<N is then failed (error with 0 bytes, short count with ErrShortWrite, short count with ENOSPC; transient and permanent) while the caller keeps calling: the API call in flight must return non-nil, nothing may panic or hang, accepted bytes must be a prefix of the fault-free output. Attachment sources fail after j bytes / end early / deliver extra for every j. Write calls are exhaustive per workload; workloads are sampled.",
    note="Trusted: sink journal tagging of the API call in flight. A short count with nil error is not injected (violates io.Writer)."),
  "C15": dict(level="fault_enumeration", design="DESIGN.md §4 C15",
-   technique="deterministic simulation with read fault injection and owned delivery schedules: unreadable byte at every position, error on every seek call, five benign fragmentation policies; six reader modes",
-   text="Each generated file is read under five benign delivery policies (result incl. terminal condition must not change) and with an unreadable byte at EVERY position incl. in place of EOF (three error-delivery variants) and an error on EVERY seek call, through the lexer (validation off/on), the scan iterator, the indexed iterator in 3 orders, Info and random access to every indexed attachment / metadata record: records must be a prefix of the fault-free result and, whenever the source actually returned the error to the library, the read must end with a non-EOF error. Positions are exhaustive per file; files are sampled.",
+   technique="deterministic simulation with read fault injection and owned delivery schedules: unreadable byte at every position, medium failing at every Read call (once / for good), error on every seek call, five benign fragmentation policies; nine reader modes",
+   text="Each generated file is read under five benign delivery policies (result incl. terminal condition must not change) and with an unreadable byte at EVERY position incl. in place of EOF (three error-delivery variants) a medium that fails at EVERY k-th Read call (once, or for good - then the consumer calls three more times and must never be told a clean EOF) and an error on EVERY seek call, through the lexer (validation off/on), the scan iterator, the indexed iterator in 3 orders, Info and random access to every indexed attachment / metadata record: records must be a prefix of the fault-free result and, whenever the source actually returned the error to the library, the read must end with a non-EOF error. Positions are exhaustive per file; files are sampled.",
    note="Trusted: simulated source (delivery sizes are a hash of offset, so zstd's reader goroutine cannot change them). A one-shot error returned together with enough bytes is not injected because io.ReadFull itself discards it."),
  "C03": dict(level="exploration", design="DESIGN.md §4 C03",
    technique="deterministic simulation over reference-encoder layouts: exhaustive seed-free sweep of all <=3x3 files on a 4-value time domain (1 channel) plus a 2-channel slice, and seeded search over larger tie-heavy files; oracle exact sort / exactly-once / in-chunk tie order / repeatability",
@@ -72,11 +72,11 @@ CHECKS = {
    note="Trusted: scheduler (one runnable task at a time). Interleaving granularity of (iii) is the API call; races inside one call are left to (iv), whose hits may need several replay attempts (up to 5 x 200 rounds are tried, and a hit is reported even if it does not show again)."),
  "C16": dict(level="exploration", design="DESIGN.md §4 C16",
    technique="deterministic simulation with two real implementations exchanging files through the simulated disk: Go writer -> Python readers and Python writer -> Go readers, both compared with the reference model",
-   text="Seeded workloads (valid UTF-8, uncompressed) are written by the Go writer in every configuration and read by the repository's Python StreamReader (validate_crcs), NonSeekingReader and SeekingReader in a subprocess with PYTHONHASHSEED fixed; seeded op lists are written by the Python Writer across its options and read by the Go lexer, scan, indexed iterators and Info. Full content, time-ordered reads, attachments, metadata and statistics are compared with the model. Samples the space.",
+   text="Seeded workloads (valid UTF-8, uncompressed) are written by the Go writer in every configuration and read by the repository's Python StreamReader (validate_crcs), NonSeekingReader and SeekingReader in a subprocess with PYTHONHASHSEED fixed; seeded op lists are written by the Python Writer across its options and read by the Go lexer, scan, Messages() with default options, indexed iterators, Info and random access through the index entries. Full content, time-ordered reads, attachments, metadata and statistics are compared with the model. Samples the space.",
    note="Trusted: reference model, pyserve.py glue. zstandard/lz4 are not installed for Python: uncompressed only. Seeking readers compared only where the summary carries what they rely on."),
  "C18": dict(level="exploration", design="DESIGN.md §4 C18",
    technique="deterministic simulation: generated bags (independent ROS bag 2.0 encoder) and SQLite databases converted by the real converters between simulated source and sink; corrupted bags observed at the process boundary",
-   text="Bags from an encoder written from the format description (connection ids 0/65535, repeated connection records, shared/distinct type+md5, messages of 0 B..5 MiB, times to 2^32-1 s, unchunked / chunked none / lz4) and db3 files made with the real sqlite driver plus generated share/ trees are converted by ros.Bag2MCAP / ros.DB3ToMCAP under drawn writer options and delivery policies; the output is validated by refmcap and compared with the bag/db model. Corrupted bags (bad/short magic, truncation, hostile header/field/data lengths) must give an error: the batch process has an 8 GiB address-space cap and names each input, so an exit, crash or OOM identifies it. Samples the space.",
+   text="Bags from an encoder written from the format description (connection ids 0/65535, repeated connection records, shared/distinct type+md5, messages of 0 B..5 MiB, times to 2^32-1 s, unchunked / chunked none / lz4) and db3 files made with the real sqlite driver plus generated share/ trees are converted by ros.Bag2MCAP / ros.DB3ToMCAP under drawn writer options and delivery policies; the output is validated by refmcap and compared with the bag/db model. Type definitions vary from scenario to scenario under the same names and a third of the db3 scenarios convert once against another share/ tree first. Corrupted bags (bad/short magic, truncation, hostile header/field/data lengths from a list, lengths off by a few bytes, field lengths overrunning their header by amounts derived from the bag's own structure) must give an error: the batch process has an 8 GiB address-space cap and names each input, so an exit, crash or OOM identifies it. Samples the space.",
    note="Trusted: bagfmt encoder, refmcap, sqlite driver. bz2 bags are not generated. Messages on non-message-typed db3 topics are not generated (outside the statement)."),
  "C20": dict(level="exploration", design="DESIGN.md §4 C20",
    technique="deterministic simulation with resource invariants monitored at every step: verif-tagged accessor read after every NextInto; generator sources/sinks with heap sampling at I/O events for streaming paths",
